@@ -25,7 +25,8 @@ MIN = {'quick': {'distinct': 1500,
                  'hooks': {'transform.punctuation_verylow': 2000,
                            'transform.punctuation_root': 2000,
                            'transform.punctuation_symetrify': 2000},
-                 'strata': {'punctuation-only constituent': 300,
+                 'strata': {'second re-attachment on the same tree': 1000,
+                            'punctuation-only constituent': 300,
                             'unary node over punctuation': 300,
                             'consecutive punctuation': 500,
                             'symetrify moved': 100, 'relc': 300}},
@@ -216,7 +217,10 @@ def run_case(ctx, case, rng):
         with common.captured():
             if case.get('root_attach'):
                 live = tr.root_attach(live)
-            getattr(tr, case['trans'])(live, **case.get('params', {}))
+            live = getattr(tr, case['trans'])(live, **case.get('params', {}))
+            if case.get('then'):
+                getattr(tr, case['then'])(live)
+                ctx.stratum('second re-attachment on the same tree')
     except Exception:
         pass
 
@@ -283,7 +287,10 @@ def shard(ctx):
         if trans == 'punctuation_symetrify' and rng.random() < 0.4:
             params['relc'] = 'PRELS'
         case = {'kind': 'p', 'spec': spec, 'trans': trans, 'params': params,
-                'root_attach': rng.random() < 0.4}
+                'root_attach': rng.random() < 0.4,
+                'then': rng.choice([None, None, 'punctuation_verylow',
+                                    'punctuation_root',
+                                    'punctuation_symetrify'])}
         run_case(ctx, case, rng)
         if i < 3:
             ctx.sample({'trans': trans, 'params': params,
